@@ -764,9 +764,66 @@ def r8(ctx):
         v = from_ast(st[0].value, {'self.flow_rate': 'F', 'flow_rate': 'F'},
                      auto=True)
         ok = v.equals(Rat.sym('F') / Rat.const(6))
+    lowfid_wall_flux(ctx, 'C01.R8')
     ctx.require(ok, 'C01.R8', init, st[0] if st else init.node,
                 'node flow = total / 6',
                 key='dassh.region_unrodded:MultiNodeHomogeneous | node flow')
+
+
+def lowfid_wall_flux(ctx, rule):
+    """Low-fidelity regions: the heat a coolant node receives from its wall
+    is the inner-surface flux of the wall solution times the wall length --
+    dz x (perimeter / 6) x htc x (T_surface - T) with the film branch, dz x
+    (perimeter / 6) x (T_midwall - T) / (t / 2k + 1 / htc) with the convection
+    approximation.  The convection factor is part of coolant_params['htc'],
+    which the duct-wall solution uses as well: any further factor on the
+    coolant side makes coolant and wall disagree about the heat exchanged."""
+    from ..algeval import run_function
+    from ..poly import Rat
+    repo = ctx.repo
+    S_ = Rat.sym
+    dz, htc, per = S_('<dz>'), S_("<self.coolant_params['htc']>"), \
+        S_('<self.duct_perim_over_6>')
+    T = S_('T')
+    ts, tm = S_("<self.temp['duct_surf'][0, 0]>"), \
+        S_("<self.temp['duct_mw'][0]>")
+    k, th = S_('<self.duct.thermal_conductivity>'), \
+        S_('<self.duct_thickness>')
+    n = 0
+    for q in ('SingleNodeHomogeneous._calc_coolant_temp',
+              'MultiNodeHomogeneous._calc_coolant_temp'):
+        f = repo.func('region_unrodded', q)
+        atoms = _coolant_atoms(f.node)
+        for approx in (False, True):
+            r = run_function(f, {'adiabatic': False, 'ebal': True,
+                                 'self._conv_approx': approx,
+                                 "power['refl'] is None": False}, atoms)
+            eb = r.call('update_ebal')
+            if len(eb) != 1 or len(eb[0][1]) != 2 or eb[0][1][1] is None:
+                raise AnalysisError('%s: wall heat handed to update_ebal not '
+                                    'found' % f.full)
+            got = eb[0][1][1]
+            if approx:
+                want = dz * per * (tm - T) / (
+                    th / Rat.const(2) / k + Rat.const(1) / htc)
+            else:
+                want = dz * per * htc * (ts - T)
+            ratio = got / want
+            n += 1
+            ctx.require(
+                got.equals(want), rule, f, eb[0][0] if hasattr(
+                    eb[0][0], 'lineno') else f.node,
+                'the wall heat a coolant node receives must be the inner-'
+                'surface flux of the wall solution x wall length (%s); the '
+                'update uses %s times that -- coolant and duct wall disagree '
+                'about the heat exchanged whenever the factor is not 1'
+                % ('dz x perim/6 x (T_mw - T)/(t/2k + 1/htc)' if approx
+                   else 'dz x perim/6 x htc x (T_surf - T)',
+                   str(ratio)[:80]),
+                note='conv_approx=%s' % approx,
+                key='%s | wall heat = wall flux | conv_approx=%s'
+                % (f.full, approx))
+    return n
 
 
 def r10(ctx):
